@@ -83,6 +83,12 @@ pub fn guarded_op(op: &str, a: &BigInt, b: &BigInt, p: &BigInt) -> String {
     }
 }
 
+/// Watchdog limit in seconds: `default`, or VERIF_FIELD_WATCHDOG_SECS (the check re-runs a case that timed out
+/// alone and with a long limit, so that a stall of the loaded machine is not taken for an unbounded computation).
+fn watchdog_secs(default: u64) -> u64 {
+    std::env::var("VERIF_FIELD_WATCHDOG_SECS").ok().and_then(|s| s.parse().ok()).unwrap_or(default)
+}
+
 /// Run with a 2 s watchdog (only used for shifts with large counts: the
 /// thread is leaked on time-out and dies with the process).
 fn watched(op: &str, a: &BigInt, b: &BigInt, p: &BigInt) -> String {
@@ -92,7 +98,7 @@ fn watched(op: &str, a: &BigInt, b: &BigInt, p: &BigInt) -> String {
         let r = guarded_op(&op, &a, &b, &p);
         let _ = tx.send(r);
     });
-    match rx.recv_timeout(Duration::from_secs(2)) {
+    match rx.recv_timeout(Duration::from_secs(watchdog_secs(2))) {
         Ok(s) => s,
         Err(_) => "timeout".to_string(),
     }
@@ -195,7 +201,7 @@ pub fn dispatch_line(line: &str) -> String {
         let r = dispatch_inner(&curve, &src);
         let _ = tx.send(r);
     });
-    let r = match rx.recv_timeout(Duration::from_secs(5)) {
+    let r = match rx.recv_timeout(Duration::from_secs(watchdog_secs(5))) {
         Ok(s) => s,
         Err(_) => "timeout".to_string(),
     };
